@@ -5,10 +5,13 @@ import json, glob, sys
 kfp = '/verif/known_findings.json'
 kf = json.load(open(kfp))
 for prop in sys.argv[1:]:
-    kf['findings'] = [f for f in kf['findings'] if f['property'] != prop]
+    # replay files exist only for violations that are not listed yet: new entries are merged into the list
+    have = {f['key'] for f in kf['findings'] if f['property'] == prop}
     for path in sorted(glob.glob(f'/verif/replays/{prop}/*.json')):
         r = json.load(open(path))
         key, w = r['key'], r['witness']
+        if key in have:
+            continue
         ops = ' || '.join(w.get('ops', []))
         if prop == 'C15':
             what = f"deadlock: {ops} can block each other forever ({key.split('|')[-1]}); " + '; '.join(w.get('blocked', []))[:400]
